@@ -10,6 +10,9 @@ CHECKS = {
     'C01': dict(level='model_checking', ref='7 C01', technique='TLA+ model (Ike.tla: SameIkeKeys, Mirror, KEYMAT halves) + TLC + replay of every transition; configuration matrix judged by an independent wire oracle',
                 text=IKE + '; in addition a matrix of real negotiations (every IKE suite; ESP/AH, PFS, modes, IPv4/IPv6, PSK/RSA, preference orders; rekey histories) judged by an oracle that derives all keys from the wire values and DH private scalars and compares both kernels field by field.',
                 note='AES/SHA/OpenSSL DH primitives trusted; kernel ABI taken from <linux/xfrm.h> of this image; bounds per scenario in the evidence.'),
+    'C04': dict(level='exploration', ref='7 C04', technique='TLA+ derivation plans (KeySchedule.tla: structural theorems as ASSUME, plans via JsonSerialize) evaluated with stdlib HMAC; wire oracle over every suite',
+                text='TLC checks the structural theorems of KeySchedule.tla (contiguous disjoint slices, prf+ counters 1..n <= 255, old SK_d keys the rekey SKEYSEED, initiator direction first) over all suites and writes the plans; the harness evaluates the plans on the wire values and DH private scalars of real sessions for every supported suite (plus IKE_SA rekey, ESP/AH, PFS) and compares every octet of both key rings and of the keys in the NEWSA requests; prf+ for all output lengths; DH primes from the RFC 3526 formula, RFC 5903 curves self-validated, fixed-width public values, shared secrets incl. leading zeros.',
+                note='numeric evaluation outside TLC (32-bit integers); SHA/AES primitives trusted.'),
     'C08': dict(level='model_checking', ref='7 C08', technique='TLA+ model (Message-ID window of Ike.tla) + TLC + replay of every transition; replay storm on random schedules',
                 text=IKE + '; beyond the bound, seeded random schedules in which every datagram already delivered is re-delivered after every step and authentic requests with future IDs are injected (oracle from the property statement).',
                 note='authentic traffic only; two endpoints; budgets (triggers, duplicates, losses) per scenario.'),
